@@ -43,7 +43,7 @@ use breakpad_symbols::{
     CfiRules, FileError, FileKind, FrameWalker, LocateSymbolsResult, Module, SymbolError, SymbolFile,
     SymbolSupplier,
 };
-use minidump::format::CONTEXT_ARM64;
+use minidump::format as md;
 use minidump::{CpuContext, Minidump, MinidumpContextValidity};
 use minidump_processor::{Limit, ProcessState, ProcessorOptions};
 use minidump_synth as synth;
@@ -102,6 +102,8 @@ struct RunCase {
 
 #[derive(Clone, Debug)]
 struct CfiCase {
+    /// name of the context type as in `MdModel.Gen.Regs.Ctx` (X86, AMD64, ARM, ARM64_OLD, ARM64, PPC, PPC64, MIPS, SPARC)
+    cpu: String,
     init: Vec<(u32, u64, bool)>,
     rules: Vec<(String, Option<u64>)>,
     sh: u64,
@@ -232,9 +234,15 @@ fn parse_case(case: &str) -> Option<Case> {
             }))
         }
         "cfi" => {
+            // `cpu:` is optional (older corpus lines: ARM64)
+            let (cpu, f) = match f.get(2).and_then(|x| field(x, "cpu:")) {
+                Some(cpu) => (cpu.to_string(), [&f[..2], &f[3..]].concat()),
+                None => ("ARM64".to_string(), f.clone()),
+            };
             if f.len() != 5 {
                 return None;
             }
+            let nregs = cfi_registers(&cpu)?.len() as u32;
             let mut init = vec![];
             let i = field(f[2], "init:")?;
             if i != "-" {
@@ -246,7 +254,7 @@ fn parse_case(case: &str) -> Option<Case> {
                         _ => return None,
                     };
                     let r: u32 = r.parse().ok()?;
-                    if r > 32 {
+                    if r >= nregs {
                         return None;
                     }
                     init.push((r, v[..v.len() - 1].parse().ok()?, valid));
@@ -275,7 +283,7 @@ fn parse_case(case: &str) -> Option<Case> {
             if labels.len() != rules.len() {
                 return None;
             }
-            Some(Case::Cfi(CfiCase { init, rules, sh: field(f[4], "sh:")?.parse().ok()? }))
+            Some(Case::Cfi(CfiCase { cpu, init, rules, sh: field(f[4], "sh:")?.parse().ok()? }))
         }
         _ => None,
     }
@@ -333,7 +341,7 @@ fn render_cfi(c: &CfiCase) -> String {
             .collect::<Vec<_>>()
             .join(",")
     };
-    format!("det cfi init:{init} rules:{rules} sh:{}", c.sh)
+    format!("det cfi cpu:{} init:{init} rules:{rules} sh:{}", c.cpu, c.sh)
 }
 
 // ------------------------------------------------------------------------- the (dump, symbols) pair
@@ -1412,24 +1420,124 @@ thread_local! {
 
 // ------------------------------------------------------------------------- direct CFI walker
 
-const ARM64_NAMES: [&str; 33] = [
-    "x0", "x1", "x2", "x3", "x4", "x5", "x6", "x7", "x8", "x9", "x10", "x11", "x12", "x13", "x14", "x15", "x16",
-    "x17", "x18", "x19", "x20", "x21", "x22", "x23", "x24", "x25", "x26", "x27", "x28", "fp", "lr", "sp", "pc",
-];
+/// the nine `CpuContext` implementations, by the name `MdModel.Gen.Regs.Ctx` gives them
+const CFI_CPUS: &[&str] = &["X86", "AMD64", "ARM", "ARM64_OLD", "ARM64", "PPC", "PPC64", "MIPS", "SPARC"];
 
-/// twin of `CfiStackWalker<CONTEXT_ARM64>` (minidump-unwind/src/lib.rs:610-660) on the real context type
-struct Twin {
-    caller_ctx: CONTEXT_ARM64,
+/// `$f::<C>($args)` for the context type named `$cpu`
+macro_rules! with_cpu {
+    ($cpu:expr, $f:ident, $($args:expr),*) => {
+        match $cpu {
+            "X86" => Some($f::<md::CONTEXT_X86>($($args),*)),
+            "AMD64" => Some($f::<md::CONTEXT_AMD64>($($args),*)),
+            "ARM" => Some($f::<md::CONTEXT_ARM>($($args),*)),
+            "ARM64_OLD" => Some($f::<md::CONTEXT_ARM64_OLD>($($args),*)),
+            "ARM64" => Some($f::<md::CONTEXT_ARM64>($($args),*)),
+            "PPC" => Some($f::<md::CONTEXT_PPC>($($args),*)),
+            "PPC64" => Some($f::<md::CONTEXT_PPC64>($($args),*)),
+            "MIPS" => Some($f::<md::CONTEXT_MIPS>($($args),*)),
+            "SPARC" => Some($f::<md::CONTEXT_SPARC>($($args),*)),
+            _ => None,
+        }
+    };
+}
+
+/// bounds of `impl FrameWalker for CfiStackWalker<C>` plus a way to make an all-zero context
+trait TwinCtx: CpuContext + Sized {
+    fn zero() -> Self;
+    fn try_reg(v: u64) -> Option<Self::Register>;
+    fn reg_u64(v: Self::Register) -> u64;
+}
+macro_rules! twin_ctx {
+    ($($t:ty),*) => {$(
+        impl TwinCtx for $t {
+            fn zero() -> Self {
+                use scroll::ctx::SizeWith;
+                use scroll::Pread;
+                let bytes = vec![0u8; <$t>::size_with(&scroll::LE)];
+                bytes.pread_with::<$t>(0, scroll::LE).expect("zero context")
+            }
+            fn try_reg(v: u64) -> Option<Self::Register> {
+                <Self as CpuContext>::Register::try_from(v).ok()
+            }
+            fn reg_u64(v: Self::Register) -> u64 {
+                u64::from(v)
+            }
+        }
+    )*};
+}
+twin_ctx!(md::CONTEXT_X86, md::CONTEXT_AMD64, md::CONTEXT_ARM, md::CONTEXT_ARM64_OLD, md::CONTEXT_ARM64, md::CONTEXT_PPC, md::CONTEXT_PPC64, md::CONTEXT_MIPS, md::CONTEXT_SPARC);
+
+fn registers_of<C: TwinCtx>() -> &'static [&'static str] {
+    C::REGISTERS
+}
+/// `REGISTERS` of the context type named `cpu`
+fn cfi_registers(cpu: &str) -> Option<&'static [&'static str]> {
+    with_cpu!(cpu, registers_of,)
+}
+fn memo_of<C: TwinCtx>(name: &str) -> Option<&'static str> {
+    C::zero().memoize_register(name)
+}
+/// the real `memoize_register` of the context type named `cpu`
+fn cfi_memoize(cpu: &str, name: &str) -> Option<&'static str> {
+    with_cpu!(cpu, memo_of, name).flatten()
+}
+fn sp_of<C: TwinCtx>() -> &'static str {
+    C::zero().stack_pointer_register_name()
+}
+
+/// spellings tried on every context type: every `REGISTERS` entry of every CPU, numbered names of
+/// all families, the SPARC window names, a few foreign / misspelt names
+fn label_universe() -> &'static Vec<String> {
+    static U: OnceLock<Vec<String>> = OnceLock::new();
+    U.get_or_init(|| {
+        let mut u: BTreeSet<String> = BTreeSet::new();
+        for cpu in CFI_CPUS {
+            for r in cfi_registers(cpu).unwrap() {
+                u.insert(r.to_string());
+            }
+        }
+        for k in 0..33 {
+            for p in ["r", "x", "g_r", "s", "w"] {
+                u.insert(format!("{p}{k}"));
+            }
+        }
+        for k in 0..9 {
+            for p in ["g", "o", "l", "i"] {
+                u.insert(format!("{p}{k}"));
+            }
+        }
+        for x in ["fp", "sp", "lr", "pc", "ra", "gp", "ip", "bogus", "x07", "X19", "R11", "FP", "fp2", "f", "r011", "eflags", "cpsr", "efl", "ebp2"] {
+            u.insert(x.to_string());
+        }
+        u.into_iter().collect()
+    })
+}
+
+/// groups of >= 2 spellings of the universe that the real `memoize_register` of `cpu` sends to one
+/// canonical name (found by probing the implementation, not read from a table)
+fn alias_groups(cpu: &str) -> Vec<Vec<String>> {
+    let mut g: BTreeMap<&'static str, Vec<String>> = BTreeMap::new();
+    for l in label_universe() {
+        if let Some(c) = cfi_memoize(cpu, l) {
+            g.entry(c).or_default().push(l.clone());
+        }
+    }
+    g.into_values().filter(|v| v.len() >= 2).collect()
+}
+
+/// twin of `CfiStackWalker<C>` (minidump-unwind/src/lib.rs:610-660) on the real context type
+struct Twin<C: TwinCtx> {
+    caller_ctx: C,
     caller_validity: HashSet<&'static str>,
     /// every name ever passed to set/clear, canonicalised (for the output)
-    touched: BTreeSet<u32>,
+    touched: BTreeSet<usize>,
 }
-impl Twin {
-    fn id(name: &str) -> Option<u32> {
-        ARM64_NAMES.iter().position(|n| *n == name).map(|p| p as u32)
+impl<C: TwinCtx> Twin<C> {
+    fn id(name: &str) -> Option<usize> {
+        C::REGISTERS.iter().position(|n| *n == name)
     }
 }
-impl FrameWalker for Twin {
+impl<C: TwinCtx> FrameWalker for Twin<C> {
     fn get_instruction(&self) -> u64 {
         0x1010
     }
@@ -1443,7 +1551,7 @@ impl FrameWalker for Twin {
         None
     }
     fn get_callee_register(&self, name: &str) -> Option<u64> {
-        if name == "sp" {
+        if self.caller_ctx.memoize_register(name) == Some(self.caller_ctx.stack_pointer_register_name()) {
             Some(0x8000)
         } else {
             None
@@ -1451,13 +1559,16 @@ impl FrameWalker for Twin {
     }
     fn set_caller_register(&mut self, name: &str, val: u64) -> Option<()> {
         let memoized = self.caller_ctx.memoize_register(name)?;
-        self.touched.insert(Twin::id(memoized)?);
+        if let Some(i) = Self::id(memoized) {
+            self.touched.insert(i);
+        }
+        let val = C::try_reg(val)?;
         self.caller_validity.insert(memoized);
         self.caller_ctx.set_register(name, val)
     }
     fn clear_caller_register(&mut self, name: &str) {
         if let Some(memoized) = self.caller_ctx.memoize_register(name) {
-            if let Some(i) = Twin::id(memoized) {
+            if let Some(i) = Self::id(memoized) {
                 self.touched.insert(i);
             }
             self.caller_validity.remove(memoized);
@@ -1472,8 +1583,9 @@ impl FrameWalker for Twin {
 }
 
 /// one direct call of `walk_with_stack_cfi`; `sh` chooses how the rule map is spread over the INIT
-/// record and delta records (text order, `$` prefixes, shadowed earlier occurrences, expression forms)
-fn cfi_once(c: &CfiCase, sh: u64) -> (Result<Option<String>, String>, String, bool) {
+/// record and delta records (text order, `$` prefixes, shadowed earlier occurrences — with and
+/// without `$`, in the same or an earlier record —, expression forms)
+fn cfi_once_t<C: TwinCtx>(c: &CfiCase, sh: u64) -> (Result<Option<String>, String>, String, bool) {
     let mut rng = Rng::new(sh);
     let mut order: Vec<usize> = (0..c.rules.len()).collect();
     for i in (1..order.len()).rev() {
@@ -1483,28 +1595,33 @@ fn cfi_once(c: &CfiCase, sh: u64) -> (Result<Option<String>, String>, String, bo
         match v {
             None => (*rng.pick(&[".undef", "nosuchreg", "1 0 /", "+"])).to_string(),
             Some(v) => match rng.below(3) {
-                0 => v.to_string(),
+                0 if *v <= i64::MAX as u64 => v.to_string(),
                 1 => format!("{} {} +", v / 2, v - v / 2),
-                _ => format!(".cfa {} -", 0x9000u64.wrapping_sub(*v)),
+                _ => format!(".cfa {} -", 0x9000u64.wrapping_sub(*v) as i64),
             },
         }
     };
-    let mut init = String::from(".cfa: sp 4096 + .ra: 8192");
+    let other = |v: &Option<u64>| if v.is_some() { ".undef".to_string() } else { "12345".to_string() };
+    let sp = sp_of::<C>();
+    let mut init = format!(".cfa: {}{sp} 4096 + .ra: 8192", if rng.chance(1, 2) { "$" } else { "" });
     let nadd = rng.below(3) as usize;
     let mut adds: Vec<String> = vec![String::new(); nadd];
     for &i in &order {
         let (l, v) = &c.rules[i];
-        let dollar = if rng.chance(1, 5) { "$" } else { "" };
+        let dollar = if rng.chance(1, 4) { "$" } else { "" };
         let slot = rng.below(nadd as u64 + 1) as usize;
         let e = expr(v, &mut rng);
-        if slot == 0 {
-            init.push_str(&format!(" {dollar}{l}: {e}"));
-        } else {
+        let target: &mut String = if slot == 0 { &mut init } else { &mut adds[slot - 1] };
+        // shadowed occurrence EARLIER IN THE SAME record, spelt with the other `$` choice
+        if rng.chance(1, 4) {
+            let d2 = if dollar.is_empty() { "$" } else { "" };
+            target.push_str(&format!(" {d2}{l}: {}", other(v)));
+        }
+        target.push_str(&format!(" {dollar}{l}: {e}"));
+        if slot != 0 && rng.chance(1, 2) {
             // shadowed occurrence in INIT with another outcome
-            if rng.chance(1, 2) {
-                init.push_str(&format!(" {l}: {}", if v.is_some() { ".undef".to_string() } else { "12345".to_string() }));
-            }
-            adds[slot - 1].push_str(&format!(" {dollar}{l}: {e}"));
+            let d3 = if rng.chance(1, 3) { "$" } else { "" };
+            init.push_str(&format!(" {d3}{l}: {}", other(v)));
         }
     }
     let init_rules = CfiRules { address: 0x1000, rules: init };
@@ -1514,16 +1631,18 @@ fn cfi_once(c: &CfiCase, sh: u64) -> (Result<Option<String>, String>, String, bo
         .filter(|(_, a)| !a.is_empty())
         .map(|(k, a)| CfiRules { address: 0x1004 + 4 * k as u64, rules: a.trim().to_string() })
         .collect();
-    let mut tw = Twin { caller_ctx: CONTEXT_ARM64::default(), caller_validity: HashSet::new(), touched: BTreeSet::new() };
+    let mut tw = Twin::<C> { caller_ctx: C::zero(), caller_validity: HashSet::new(), touched: BTreeSet::new() };
     for (r, v, valid) in &c.init {
-        let name = ARM64_NAMES[*r as usize];
-        tw.caller_ctx.set_register(name, *v);
+        let name = C::REGISTERS[*r as usize];
+        if let Some(x) = C::try_reg(*v) {
+            tw.caller_ctx.set_register(name, x);
+        }
         if *valid {
             tw.caller_validity.insert(name);
         } else {
             tw.caller_validity.remove(name);
         }
-        tw.touched.insert(*r);
+        tw.touched.insert(*r as usize);
     }
     let text = format!("INIT `{}` + {:?}", init_rules.rules, additional.iter().map(|a| a.rules.as_str()).collect::<Vec<_>>());
     let r = catch(|| walk_with_stack_cfi(&init_rules, &additional, &mut tw));
@@ -1532,16 +1651,20 @@ fn cfi_once(c: &CfiCase, sh: u64) -> (Result<Option<String>, String>, String, bo
         Ok(None) => Ok(None),
         Ok(Some(())) => {
             let mut shown = vec![];
-            for (i, name) in ARM64_NAMES.iter().enumerate() {
+            for (i, name) in C::REGISTERS.iter().enumerate() {
                 let valid = tw.caller_validity.contains(name);
-                if valid || tw.touched.contains(&(i as u32)) {
-                    shown.push(format!("{i}={}{}", tw.caller_ctx.get_register_always(name), if valid { '+' } else { '-' }));
+                if valid || tw.touched.contains(&i) {
+                    shown.push(format!("{i}={}{}", C::reg_u64(tw.caller_ctx.get_register_always(name)), if valid { '+' } else { '-' }));
                 }
             }
             Ok(Some(format!("regs:{}", shown.join(","))))
         }
     };
     (out, text, !additional.is_empty())
+}
+
+fn cfi_once(c: &CfiCase, sh: u64) -> (Result<Option<String>, String>, String, bool) {
+    with_cpu!(c.cpu.as_str(), cfi_once_t, c, sh).expect("det cfi: unknown cpu")
 }
 
 fn exec_cfi(c: &CfiCase) -> ImplResult {
@@ -1568,24 +1691,28 @@ fn exec_cfi(c: &CfiCase) -> ImplResult {
             let class = if k < 5 { "cfi-registers-differ-across-runs" } else { "cfi-registers-differ-across-renderings" };
             res.oracle.push((
                 class.into(),
-                format!("call #{k}: {:?} but the first call gave {:?}; records: {text2} (first call: {text})", again, first),
+                format!("{} call #{k}: {:?} but the first call gave {:?}; records: {text2} (first call: {text})", c.cpu, again, first),
             ));
             break;
         }
     }
     let additional_nonempty = has_delta;
     // distribution
-    let canon = |l: &str| -> Option<&'static str> { CONTEXT_ARM64::default().memoize_register(l) };
-    let mut targets: Vec<&'static str> = c.rules.iter().filter_map(|(l, _)| canon(l)).collect();
+    let mut targets: Vec<&'static str> = c.rules.iter().filter_map(|(l, _)| cfi_memoize(&c.cpu, l)).collect();
     let n = targets.len();
     targets.sort();
     targets.dedup();
     let aliased = targets.len() < n;
     res.nontrivial = c.rules.len() >= 2;
     res.tags.push("kind:cfi".into());
+    res.tags.push(format!("cfi-cpu:{}", c.cpu));
     res.tags.push(format!("cfi-rules:{}", c.rules.len().min(8)));
     if aliased {
         res.tags.push("cfi-aliased-labels".into());
+        res.tags.push(format!("cfi-aliased-labels:{}", c.cpu));
+    }
+    if c.rules.iter().any(|(_, v)| v.is_some_and(|v| v > u32::MAX as u64)) {
+        res.tags.push("cfi-value-over-32-bits".into());
     }
     if additional_nonempty {
         res.tags.push("cfi-delta-records".into());
@@ -1854,22 +1981,36 @@ fn gen_run(rng: &mut Rng, i: u64, tier: Tier) -> RunCase {
     }
 }
 
-const CFI_LABELS: &[&str] = &[
-    "x19", "x20", "x21", "x22", "x23", "x24", "x25", "x26", "x27", "x28", "x29", "fp", "x30", "lr", "sp", "pc", "x0",
-    "x7", "x18", "bogus", "x31", "x07", "X19", "r11", "fp2", "f",
-];
+/// labels the real `memoize_register` of `cpu` knows (canonical names and aliases)
+fn known_labels(cpu: &str) -> Vec<String> {
+    label_universe().iter().filter(|l| cfi_memoize(cpu, l).is_some()).cloned().collect()
+}
+
+fn cfi_value(rng: &mut Rng) -> Option<u64> {
+    match rng.below(16) {
+        0..=3 => None,
+        // does not fit a 32-bit register: the rule counts as failed there (F25)
+        4 => Some((1u64 << 32) + rng.below(0x1000)),
+        5 => Some(*rng.pick(&[0u64, 1, 0xffff_ffff, 0x1_0000_0000, 0xffff_ffff_ffff, 1 << 40])),
+        _ => Some(rng.below(0x8000)),
+    }
+}
 
 fn gen_cfi(rng: &mut Rng) -> CfiCase {
+    // the CPUs with alias arms get half of the cases
+    let cpu = if rng.chance(1, 2) { *rng.pick(&["ARM", "ARM", "ARM64", "ARM64_OLD", "SPARC"]) } else { *rng.pick(CFI_CPUS) };
     let n = rng.range(0, 8) as usize;
-    let mut labels: Vec<&str> = CFI_LABELS.to_vec();
-    let mut rules = vec![];
-    // aliased pairs in a fixed fraction
-    if rng.chance(1, 2) {
-        for pair in [["x29", "fp"], ["x30", "lr"]] {
-            if rng.chance(1, 2) {
-                for l in pair {
+    let mut labels: Vec<String> = if rng.chance(3, 4) { known_labels(cpu) } else { label_universe().clone() };
+    let mut rules: Vec<(String, Option<u64>)> = vec![];
+    // whole alias groups in a fixed fraction
+    let groups = alias_groups(cpu);
+    if !groups.is_empty() && rng.chance(2, 3) {
+        for _ in 0..rng.range(1, 3) {
+            let g = rng.pick(&groups).clone();
+            for l in g {
+                if rules.iter().all(|(x, _)| *x != l) {
                     labels.retain(|x| *x != l);
-                    rules.push((l.to_string(), if rng.chance(1, 4) { None } else { Some(rng.below(0x8000)) }));
+                    rules.push((l, cfi_value(rng)));
                 }
             }
         }
@@ -1879,14 +2020,15 @@ fn gen_cfi(rng: &mut Rng) -> CfiCase {
             break;
         }
         let l = labels.swap_remove(rng.below(labels.len() as u64) as usize);
-        rules.push((l.to_string(), if rng.chance(1, 4) { None } else { Some(rng.below(0x8000)) }));
+        rules.push((l, cfi_value(rng)));
     }
     for a in (1..rules.len()).rev() {
         let b = rng.below(a as u64 + 1) as usize;
         rules.swap(a, b);
     }
+    let nregs = cfi_registers(cpu).unwrap().len() as u32;
     let mut init = vec![];
-    let mut regs: Vec<u32> = vec![19, 20, 21, 22, 23, 28, 29, 30, 31];
+    let mut regs: Vec<u32> = (0..nregs).collect();
     for _ in 0..rng.below(5) {
         if regs.is_empty() {
             break;
@@ -1895,7 +2037,54 @@ fn gen_cfi(rng: &mut Rng) -> CfiCase {
         init.push((r, rng.below(1000), rng.chance(3, 4)));
     }
     init.sort();
-    CfiCase { init, rules, sh: rng.below(1 << 32) }
+    CfiCase { cpu: cpu.to_string(), init, rules, sh: rng.below(1 << 32) }
+}
+
+/// exhaustive part: for every CPU and every two of its alias groups (two spellings each), every rule
+/// map over the four labels with outcome {absent, 5, 6, evaluation fails} each
+fn exhaustive_cfi(emit: &mut dyn FnMut(String)) {
+    for cpu in CFI_CPUS {
+        let groups = alias_groups(cpu);
+        let nregs = cfi_registers(cpu).unwrap().len() as u32;
+        let id = |l: &str| cfi_registers(cpu).unwrap().iter().position(|r| Some(*r) == cfi_memoize(cpu, l)).unwrap() as u32;
+        let mut combos: Vec<(usize, usize)> = vec![];
+        if groups.len() <= 4 {
+            for a in 0..groups.len() {
+                for b in a + 1..groups.len() {
+                    combos.push((a, b));
+                }
+            }
+        } else {
+            // SPARC: 32 window names; neighbouring groups
+            for a in (0..groups.len() - 1).step_by(2) {
+                combos.push((a, a + 1));
+            }
+        }
+        for (ci, (a, b)) in combos.iter().enumerate() {
+            let four = [groups[*a][0].clone(), groups[*a][1].clone(), groups[*b][0].clone(), groups[*b][1].clone()];
+            let (ra, rb) = (id(&four[0]), id(&four[2]));
+            let inits: Vec<Vec<(u32, u64, bool)>> = if groups.len() <= 4 {
+                vec![vec![], vec![(ra, 7, true)], vec![(ra.min(rb), 7, false), (ra.max(rb), 9, true)]]
+            } else {
+                vec![vec![(ra.min(rb), 7, false), (ra.max(rb), 9, true)]]
+            };
+            debug_assert!(ra < nregs && rb < nregs);
+            for code in 0..256u32 {
+                for init in &inits {
+                    let mut rules = vec![];
+                    for (k, l) in four.iter().enumerate() {
+                        match (code >> (2 * k)) & 3 {
+                            0 => {}
+                            1 => rules.push((l.to_string(), Some(5))),
+                            2 => rules.push((l.to_string(), Some(6))),
+                            _ => rules.push((l.to_string(), None)),
+                        }
+                    }
+                    emit(render_cfi(&CfiCase { cpu: cpu.to_string(), init: init.clone(), rules, sh: (code as u64) * 131 + ci as u64 }));
+                }
+            }
+        }
+    }
 }
 
 impl Engine for Det {
@@ -1917,22 +2106,7 @@ impl Engine for Det {
         for i in 0..n_run {
             emit(render_run(&gen_run(rng, i, tier)));
         }
-        // exhaustive: every rule map over the aliased labels fp/x29/lr/x30 with outcomes
-        // {absent, 5, 6, fails} x three initial caller states
-        for code in 0..256u32 {
-            for init in [vec![], vec![(29u32, 7u64, true)], vec![(29, 7, false), (30, 9, true)]] {
-                let mut rules = vec![];
-                for (k, l) in ["fp", "x29", "lr", "x30"].iter().enumerate() {
-                    match (code >> (2 * k)) & 3 {
-                        0 => {}
-                        1 => rules.push((l.to_string(), Some(5))),
-                        2 => rules.push((l.to_string(), Some(6))),
-                        _ => rules.push((l.to_string(), None)),
-                    }
-                }
-                emit(render_cfi(&CfiCase { init, rules, sh: code as u64 }));
-            }
-        }
+        exhaustive_cfi(emit);
         for _ in 0..n_cfi {
             emit(render_cfi(&gen_cfi(rng)));
         }
